@@ -129,6 +129,19 @@ CLAIMS["C05"] = dict(
     technique="contract-based deductive verification: loop invariant with ghost history (quantified buffer invariant) on the real runner, VCs to z3; bounded native stand-in for the HDF5 reader",
     note=TRUST + " dt>0 from C12. tqdm/logging/monitor outside the contract.")
 
+CLAIMS["C15"] = dict(
+    category="proof",
+    text="Exceptional postconditions on the real code: (1) Runner._run_stage with an error / KeyboardInterrupt injected into the abstract update or the "
+         "abstract frame writer at the GENERIC iteration of the cut loop (all step indices of both stages at once): errors propagate, a cancellation ends "
+         "the stage and is reported, every frame written before or at the stop carries its own label and state, a cancelled thermalisation skips the "
+         "recorded stage; (2) DataHandler enter/exit executed on an abstract file system for every subset of pre-existing output/tmp names: fresh name, "
+         "existing files untouched, no leaked handle or file, everything released on exit, exceptions not swallowed; (3) TDGLSolver.solve: every path runs "
+         "__exit__ exactly once, errors propagate after cleanup, cancellation returns a Solution / None; (4) fault enumeration at every h5 operation of the "
+         "real frame writer - NOT atomic: known finding. One leak defect was repaired by a fix: commit.",
+    design_ref="DESIGN.md section 4 C15",
+    technique="contract-based deductive verification: exceptional postconditions with fault injection at the generic loop iteration; abstract resource model; fault enumeration for the writer",
+    note=TRUST + " h5py/os/tempfile replaced by an abstract resource model (assumed contract); OS/HDF5 state after close only in the bounded native run; pause_on_interrupt=False.")
+
 NA = {}
 
 checks = []
